@@ -59,9 +59,46 @@ def run_real(table, logical, write, mode):
     return res
 
 
+def run_real_failing_bus(table, logical, write):
+    """the bus write of the enter half fails (datagram not processed) or the
+    task is cancelled there: the table must be as before"""
+    from ebpfcat.ethercat import EtherCatError, Terminal
+    out = {}
+    for what, exc in (("bus error", EtherCatError("datagram was not processed")),
+                      ("cancelled", asyncio.CancelledError())):
+        class EC:
+            async def roundtrip(self, cmd, pos, offset, *args, data=None, idx=0):
+                raise exc
+        t = object.__new__(Terminal)
+        t.ec = EC()
+        t.position = 9
+        t.fmmu_used = list(table)
+        t.pdo_out_off, t.pdo_out_sz, t.pdo_in_off, t.pdo_in_sz = 0x1000, 4, 0x1100, 6
+
+        async def go():
+            try:
+                async with t.map_fmmu(logical, write):
+                    pass
+            except (EtherCatError, asyncio.CancelledError, ValueError):
+                pass
+        try:
+            asyncio.run(go())
+        except BaseException as e:     # noqa
+            out[what] = f"raised {type(e).__name__}"
+            continue
+        out[what] = "table unchanged" if t.fmmu_used == list(table) else f"table left as {t.fmmu_used}"
+    return out
+
+
 def native(name, conc, notes):
     table = conc["self"]["fmmu_used"]
     logical, write = conc["logical"], conc["write"]
+    if ".enter.raises[" in name:
+        out = run_real_failing_bus(table, logical, write)
+        return {"inputs": {"fmmu_used": table, "logical": logical, "write": write,
+                           "bus": "the FMMU configuration write fails / is cancelled"},
+                "reproduced": any(v != "table unchanged" for v in out.values()),
+                "detail": f"real Terminal.map_fmmu with a failing configuration write: {out}"}
     mode = "normal"
     for n in notes or []:
         if n.startswith("with-block left by:"):
